@@ -66,6 +66,21 @@ fn replay(p: &std::path::Path) {
         }
         return;
     }
+    if rp["later_call"].as_bool().unwrap_or(false) && extra.len() == 2 {
+        let mut fs = adblock::FilterSet::new(true);
+        let mut first = base.clone();
+        first.push(extra[0].clone());
+        fs.add_filters(first.iter(), Default::default());
+        fs.add_filters([extra[1].clone()].iter(), Default::default());
+        let mut e3 = adblock::Engine::from_filter_set(fs, false);
+        e3.use_tags(&tagrefs);
+        let v3 = engine_verdict(&e3, &req);
+        println!("list + first rule in one call, the $badfilter twin in a later call: {:?}", v3);
+        if v3 != v0 {
+            println!("VIOLATION property=C04 replay={}", p.display());
+            std::process::exit(1);
+        }
+    }
     let bad = match rp["kind"].as_str().unwrap_or("") {
         "exception_monotone" => v1.matched && !v0.matched,
         "blocking_monotone" => v0.matched && !v1.matched,
@@ -251,11 +266,28 @@ fn main() {
                     l2.push(y.clone());
                     l2.push(z.clone());
                     let e2 = build_engine(&l2, tags, false);
+                    // the same pair loaded in SEPARATE calls: the list with y first, its $badfilter twin in a
+                    // later add_filters / add_filter_list call on the same FilterSet
+                    let e3 = {
+                        let mut fs = adblock::FilterSet::new(true);
+                        let mut first = lines.clone();
+                        first.push(y.clone());
+                        fs.add_filters(first.iter(), Default::default());
+                        if r.chance(1, 2) { fs.add_filters([z.clone()].iter(), Default::default()); } else { fs.add_filter_list(&z, Default::default()); }
+                        let mut e = adblock::Engine::from_filter_set(fs, false);
+                        e.use_tags(tags);
+                        e
+                    };
                     let zf = parse_net(&z);
                     for _ in 0..2 {
                         let Some((url, src, ty, req)) = clean_request(&mut r, &[y.clone()]) else { continue };
                         sm.oracle_evaluations += 1;
                         let (v0, v1) = (engine_verdict(&e, &req), engine_verdict(&e2, &req));
+                        let v3 = engine_verdict(&e3, &req);
+                        if v3 != v0 {
+                            sm.failure(None, &format!("loading {} with the list and {} in a later call changed the verdict from {:?} to {:?}", y, z, v0, v3),
+                                json!({"kind": "badfilter_pair", "later_call": true, "rules": lines, "added": [y, z], "tags": tags, "url": url, "source": src, "type": ty}));
+                        }
                         if v0 != v1 {
                             // does z cancel something else by an id collision (F20)?
                             let class: Option<&str> = None; // F20 (filter/hostname concatenation) is repaired: no carve-out
